@@ -5,13 +5,24 @@ from gffutils.feature import Feature
 from gv.model import bins_ref as R
 
 ID = "C12"
-RULE = ("every (start,end) pair over the boundary grid x fmt x one (part 'grid'); every ordered pair of "
-        "overlapping intervals over the sub-grid (part 'pairs'); non-trivial = an in-range interval that "
-        "crosses or touches a bin boundary at some level, or an out-of-range coordinate")
+RULE = (
+    "Part 'grid' (shards = convention {gff, bed} x blocks of 8 start values): every (start, end) pair over the boundary grid (135 "
+    "coordinates quick / 588 thorough: m*2^(17+3k)+d for k = 0..4, m in {1,2,3,7,8,9} quick / {1..16,63,64,65} thorough, |d| <= 2 quick "
+    "/ 3 thorough, plus 0+d and 2^29+d) x result form one=True/False x whether the same numbers were first asked under the other "
+    "convention. One-bin form: out-of-range gives the integer 1; an empty interval start = end+1 gives a finest-level bin holding the "
+    "following base; otherwise the result is a bin whose arithmetic extent contains the interval and is not coarser than allowed; for "
+    "gff with start <= end Feature.bin / calc_bin() agree and a Feature whose coordinates were changed after construction stores the "
+    "bin of its current coordinates. Set form: a set; out-of-range contains 1 and is not shared state (editing it does not change the "
+    "next answer); otherwise it contains every overlapping bin and nothing beyond the +-1 neighbourhood. Part 'pairs' (shards = stored "
+    "start over the sub-grid, 25 / 35 coordinates, gff): every stored interval x every overlapping in-range query interval: the stored "
+    "one-bin is in the query's bin set. Non-trivial = out-of-range coordinate; in-range one-bin: the interval touches a bin boundary or "
+    "the bin is above the finest level; set form: must and may sets differ; every checked pair."
+)
 ASSUMPTIONS = [
     "exhaustive over the boundary grid only; elsewhere the function depends on coordinates only through "
     ">>17 and >>3 steps, so every behavioural boundary lies within +-2 of a multiple of a bin size",
-    "inverted/empty intervals (start > end) are outside the statement and skipped, except for the out-of-range rule",
+    "inverted intervals (start > end + 1) are outside the statement and skipped, except for the out-of-range rule; the empty interval "
+    "start = end + 1 is checked in the one-bin form only (a finest-level bin holding the following base)",
 ]
 
 
